@@ -14,6 +14,9 @@ Variable DT : list (Z * string).
 Variable ML : list (Z * dact).
 Variable UL : list (Z * uact).
 Variable BL : list (string * Z).
+(* Python's own operations on plain values cannot conjure service objects: whatever they hand out came in with the arguments *)
+Definition val_closed : Prop := forall op v args, incl (yields (s_val S op v args)) (flat_map objs_of args).
+Hypothesis Sval : val_closed.
 
 (* ------------------------------------------------------------------ ghost replay of a trace (newest first) *)
 Record ghost := { g_tbl : table; g_auth : list oid }.
@@ -48,6 +51,9 @@ Definition ev_ok (g : ghost) (e : event) : Prop :=
   | EBox k o => In o (g_auth g) /\ k = s_key S o
   | EDecref k _ => tbl_find k (g_tbl g) <> None
   | EVin v => exists payload, In v (fst (Vinegar.vload Vinegar.LkGetattr (c_rflags C) (s_env S) payload))
+  | EPayload o _ => In o (g_auth g)
+  | EForeign ys => incl ys (g_auth g)
+  | ECls _ => Vinegar.hooks_run (c_cls_mode C) (c_rflags C) = true
   | _ => True
   end.
 Fixpoint wf (t : list event) : Prop :=
@@ -160,12 +166,13 @@ Proof.
   - unfold ext, auth. cbn. apply incl_appr, incl_refl.
   - intros a ->. unfold holds, auth. cbn. apply incl_appl, incl_refl.
 Qed.
-Lemma spec_val_op (pre : state -> Prop) op v args : spec pre (val_op S op v args) holds.
+Lemma spec_val_op (pre : state -> Prop) op v args : (forall s, pre s -> holds_all s args) -> spec pre (val_op S op v args) holds.
 Proof.
-  intros s s' r I P E. unfold val_op in E. injection E as <- <-. split; [|split].
-  - split; cbn; [split; [apply I|exact Logic.I]|apply I].
+  intros Ha s s' r I P E. unfold val_op in E. injection E as <- <-. split; [|split].
+  - split; cbn; [split; [apply I|]|apply I]. eapply incl_tran; [apply Sval|].
+    specialize (Ha _ P). intros o Ho. apply in_flat_map in Ho as (x & Hx & Ho). unfold holds_all in Ha. rewrite Forall_forall in Ha. exact (Ha x Hx o Ho).
   - unfold ext, auth. cbn. apply incl_appr, incl_refl.
-  - intros a Ha. unfold holds, auth. cbn. rewrite Ha. cbn. apply incl_appl, incl_refl.
+  - intros a Hr. unfold holds, auth. cbn. rewrite Hr. cbn. apply incl_appl, incl_refl.
 Qed.
 Lemma spec_resolve (pre : state -> Prop) k : spec pre (resolve k) holds.
 Proof.
@@ -222,7 +229,39 @@ Proof.
   subst s'. split; [exact I'|split; [exact X'|auto]].
 Qed.
 
-Definition holds_opt (s : state) (v : lval) := holds s v.
+Lemma spec_in_ccache (pre : state -> Prop) k : spec pre (in_ccache k) (fun _ _ => True).
+Proof. intros s s' r I P E. injection E as <- <-. split; [exact I|split; [apply ext_refl|auto]]. Qed.
+Lemma spec_was_seen (pre : state -> Prop) k : spec pre (was_seen k) (fun _ _ => True).
+Proof. intros s s' r I P E. injection E as <- <-. split; [exact I|split; [apply ext_refl|auto]]. Qed.
+Lemma spec_note_seen (pre : state -> Prop) k : spec pre (note_seen k) (fun _ _ => True).
+Proof. intros s s' r I P E. injection E as <- <-. split; [exact I|split; [exact (ext_refl s)|auto]]. Qed.
+Lemma spec_note_class (pre : state -> Prop) k : spec pre (note_class k) (fun _ _ => True).
+Proof. intros s s' r I P E. injection E as <- <-. split; [exact I|split; [exact (ext_refl s)|auto]]. Qed.
+Lemma class_imports_hooks name : class_imports S C name <> [] -> Vinegar.hooks_run (c_cls_mode C) (c_rflags C) = true.
+Proof.
+  unfold class_imports. destruct (find _ _) as [[m cls]|]; [|congruence].
+  destruct (Vinegar.find_module _ _ m); [|congruence]. destruct (Vinegar.assoc cls n) as [[| |imps fnd]|]; try congruence.
+  destruct (Vinegar.hooks_run _ _); congruence.
+Qed.
+Lemma spec_class_walk (pre : state -> Prop) name : spec pre (class_walk S C name) (fun _ _ => True).
+Proof.
+  intros s s' r I P E. unfold class_walk, emit_all in E. injection E as <- <-.
+  assert (H : class_imports S C name = [] \/ Vinegar.hooks_run (c_cls_mode C) (c_rflags C) = true).
+  { destruct (class_imports S C name) eqn:X; [now left|right]. apply (class_imports_hooks name). rewrite X. discriminate. }
+  assert (K : forall l s0, Inv s0 -> (l = [] \/ Vinegar.hooks_run (c_cls_mode C) (c_rflags C) = true) ->
+              Inv (fold_left add_ev (map ECls l) s0) /\ ext s0 (fold_left add_ev (map ECls l) s0)).
+  { induction l as [|m l IHl]; intros s0 I0 Hl; cbn; [split; [exact I0|apply ext_refl]|].
+    destruct Hl as [Hl|Hl]; [discriminate|].
+    assert (I1 : Inv (add_ev s0 (ECls m))) by (apply inv_add; [exact I0|exact Hl|cbn; apply I0]).
+    destruct (IHl _ I1 (or_intror Hl)) as [I2 X2]. split; [exact I2|]. eapply ext_trans; [|exact X2]. apply auth_add. discriminate. }
+  destruct (K _ s I H) as [I' X']. split; [exact I'|split; [exact X'|auto]].
+Qed.
+Lemma spec_raise_loaded {A} (pre : state -> Prop) payload (post : state -> A -> Prop) : spec pre (raise_loaded S C payload) post.
+Proof.
+  intros s s' r I P E. unfold raise_loaded in E. destruct (load_exc S C payload s) as [s1 r1] eqn:El.
+  destruct (spec_load_exc pre payload _ _ _ I P El) as (I1 & X1 & _).
+  destruct r1; injection E as <- <-; (split; [exact I1|split; [exact X1|intros ? ?; discriminate]]).
+Qed.
 
 Lemma spec_unbox f : forall pkg, spec (fun _ => True) (unbox S C UL f pkg) holds.
 Proof.
@@ -243,7 +282,7 @@ Proof.
       eapply spec_bind with (mid := fun s v => holds s v); [auto with stab| |].
       - intros s s' r I P E. unfold in_genexpr in E. destruct (unbox S C UL f x s) as [s1 r1] eqn:U.
         destruct (IH x _ _ _ I Logic.I U) as (I1 & X1 & Q1).
-        destruct r1 as [a|[[]| | | |]|]; injection E as <- <-; (split; [exact I1|split; [exact X1|]]); intros a0 Ha; try discriminate; now apply Q1.
+        destruct r1 as [a|[[]| | | | | |]|]; injection E as <- <-; (split; [exact I1|split; [exact X1|]]); intros a0 Ha; try discriminate; now apply Q1.
       - intros v. eapply spec_bind with (mid := fun s l => holds_all s l); [auto with stab| |].
         + eapply spec_pre; [apply IHi|intros; exact Logic.I].
         + intros vs. apply spec_ret. intros s [[_ Hv] Hvs]. constructor; auto. }
@@ -252,15 +291,23 @@ Proof.
   - apply spec_resolve.
   - destruct (index3 value) as [[[a b] c]|x|]; [|apply spec_raise|apply spec_unm].
     destruct (py_str a) as [name|]; [|apply spec_unm].
+    eapply spec_bind with (mid := fun _ _ => True); [auto with stab|apply spec_in_ccache|]. intros cached.
+    destruct (is_zero c && cached); [apply spec_ret; intros; now apply holds_noobj|].
     destruct (is_builtin_name S name); [apply spec_ret; intros; now apply holds_noobj|].
     destruct (negb (sane_name name)); [apply spec_unm|].
-    eapply spec_bind with (mid := fun _ _ => True); [auto with stab|apply spec_emit; cbn; auto|]. intros _.
-    eapply spec_bind with (mid := fun _ _ => True); [auto with stab|apply spec_pop|]. intros ans.
+    eapply spec_bind with (mid := fun _ _ => True); [auto with stab|apply spec_was_seen|]. intros seen.
+    eapply spec_bind with (mid := fun _ _ => True); [auto with stab|destruct seen; [apply spec_mark|apply spec_ret; auto]|]. intros ?.
+    eapply spec_bind with (mid := fun _ _ => True); [auto with stab|apply spec_note_seen|]. intros ?.
+    eapply spec_bind with (mid := fun _ _ => True); [auto with stab|apply spec_emit; cbn; auto|]. intros ?.
+    eapply spec_bind with (mid := fun _ _ => True); [auto 10 with stab|apply spec_pop|]. intros ans.
     destruct ans as [p|payload|].
-    + eapply spec_bind with (mid := holds); [auto with stab| |].
+    + eapply spec_bind with (mid := holds); [auto 10 with stab| |].
       * eapply spec_pre; [apply IH|intros; exact Logic.I].
-      * intros m. destruct (methods_ok m); [apply spec_ret; intros; now apply holds_noobj|apply spec_raise|apply spec_unm].
-    + eapply spec_bind with (mid := fun _ _ => True); [auto with stab|apply spec_load_exc|]. intros x. apply spec_raise.
+      * intros m. destruct (methods_ok m); [|apply spec_raise|apply spec_unm].
+        eapply spec_bind with (mid := fun _ _ => True); [auto 10 with stab|apply spec_class_walk|]. intros ?.
+        eapply spec_bind with (mid := fun _ _ => True); [auto 10 with stab|destruct (is_zero c); [apply spec_note_class|apply spec_ret; auto]|]. intros ?.
+        apply spec_ret; intros; now apply holds_noobj.
+    + apply spec_raise_loaded.
     + apply spec_raise.
 Qed.
 
@@ -273,7 +320,7 @@ Proof.
   eapply spec_bind with (mid := fun _ _ => True); [auto with stab|apply spec_pop|]. intros ans.
   destruct ans as [p|payload|].
   - eapply spec_pre; [apply spec_unbox|intros; exact Logic.I].
-  - eapply spec_bind with (mid := fun _ _ => True); [auto with stab|apply spec_load_exc|]. intros x. apply spec_raise.
+  - apply spec_raise_loaded.
   - apply spec_raise.
 Qed.
 Lemma spec_converse h args : spec (fun s => holds_all s args) (converse S C UL BL h args) holds.
@@ -405,7 +452,7 @@ Proof.
               | LT _ | LSlice _ _ | LOpq | LAny => unm
               end holds).
   { intros op' Hp'. destruct a; try apply spec_unm.
-    - apply spec_val_op.
+    - apply spec_val_op. intros; constructor.
     - apply spec_touch; [intros s [H _]; now apply holds_LO|exact Hp'].
     - eapply spec_pre; [apply spec_converse|intros s [H _]; apply holds_all_one; exact H]. }
   destruct op; cbn [do_op]; try (apply Dflt; exact Hp).
@@ -416,11 +463,12 @@ Proof.
   - (* OpIsinstance *)
     destruct b; try apply spec_unm; try apply spec_raise.
     destruct (index2 v) as [[x y]|x|]; try apply spec_raise; try apply spec_unm.
-    destruct x; try apply spec_unm.
-    destruct (is_builtin_name S cps); [|apply spec_ret; intros; now apply holds_noobj].
+    destruct x as [| | | | | | | |name| | | |]; try (apply spec_ret; intros; now apply holds_noobj).
+    eapply spec_bind with (mid := fun _ _ => True); [auto with stab|apply spec_in_ccache|]. intros cached.
+    destruct (is_builtin_name S name || cached); [|apply spec_ret; intros; now apply holds_noobj].
     destruct a; try apply spec_unm.
-    + apply spec_val_op.
-    + apply spec_touch; [intros s [H _]; now apply holds_LO|discriminate].
+    + apply spec_val_op. intros; constructor.
+    + apply spec_touch; [intros s [[H _] _]; now apply holds_LO|discriminate].
   - (* OpIdPack *)
     destruct a; try (apply spec_ret; intros; now apply holds_noobj).
     eapply spec_bind with (mid := fun _ _ => True); [auto with stab| |intros _; apply spec_ret; intros; now apply holds_noobj].
@@ -514,7 +562,10 @@ Proof.
   destruct r1 as [a|x|].
   - injection E as <- <-. split; [exact I1|split; [exact X1|exact Q1]].
   - destruct (is_exception x).
-    + destruct (Hh _ _ _ I1 (St _ _ X1 P) E) as (I2 & X2 & Q2). split; [exact I2|split; [exact (ext_trans _ _ _ X1 X2)|exact Q2]].
+    + set (s1' := with_ctxs s1 (ctx_of x ++ ctxs s1)) in E.
+      assert (I1' : Inv s1') by exact I1.
+      assert (X1' : ext s s1') by exact X1.
+      destruct (Hh _ _ _ I1' (St _ _ X1' P) E) as (I2 & X2 & Q2). split; [exact I2|split; [exact (ext_trans _ _ _ X1' X2)|exact Q2]].
     + injection E as <- <-. split; [exact I1|split; [exact X1|exact Q1]].
   - injection E as <- <-. split; [exact I1|split; [exact X1|exact Q1]].
 Qed.
@@ -572,7 +623,7 @@ Proof.
       * sp_bind holds_all; [sp_pre spec_iter; tauto|]. intros l1.
         sp_bind (fun (_ : state) (_ : list (lval * lval)) => True); [sp_pre spec_kw; tauto|]. intros k. apply spec_ret. intros s H. cbn. tauto.
     + intros sk. destruct fv; try apply spec_unm; try apply spec_raise.
-      * apply spec_val_op.
+      * apply spec_val_op. intros s H. apply holds_all_app; [apply holds_tuple_items|]; tauto.
       * apply spec_touch; [|discriminate]. intros s H. apply holds_LO. tauto.
       * sp_pre spec_converse. intros s H. constructor; [apply holds_LP|]. apply holds_all_app; [apply holds_tuple_items|]; tauto.
   - (* XOp *)
@@ -627,6 +678,208 @@ Proof.
         -- eapply spec_pre with (pre := fun s => holds_all s [LP idp]); [|auto with stab]. apply spec_converse_any. intros; apply spec_unm.
       * destruct v; try apply spec_raise. eapply spec_weaken; [apply spec_touch; [intros s H; apply holds_LO; exact H|discriminate]|auto|auto].
     + apply spec_ret. intros s [[_ Hv] _]. apply holds_LT. constructor; [exact Hv|]. constructor; [now apply holds_noobj|]. constructor; [now apply holds_noobj|constructor].
+Qed.
+
+(* ------------------------------------------------------------------ what a raised exception carries is held *)
+(* whenever a computation ends in an exception, the objects that exception carries were handed out by an operation of this
+   request (they are in [auth]): only service code attaches objects to exceptions *)
+Definition rspec {A} (m : M A) : Prop := forall s s' x, m s = (s', RRaise x) -> incl (carried x) (auth s').
+Lemma r_ret {A} (a : A) : rspec (ret a). Proof. intros s s' x E. discriminate. Qed.
+Lemma r_unm {A} : rspec (@unm W A). Proof. intros s s' x E. discriminate. Qed.
+Lemma r_raise {A} x : carried x = [] -> rspec (@raise W A x).
+Proof. intros H s s' y [= <- <-]. rewrite H. apply incl_nil_l. Qed.
+Lemma r_raise_std {A} e : rspec (@raise_std W A e). Proof. now apply r_raise. Qed.
+Lemma r_lift {A} (r : result A) : rspec (lift r).
+Proof. destruct r; cbn [lift]; [apply r_ret|apply r_raise_std|apply r_unm|apply r_unm]. Qed.
+Lemma r_bind {A B} (m : M A) (k : A -> M B) : rspec m -> (forall a, rspec (k a)) -> rspec (mbind m k).
+Proof.
+  intros Hm Hk s s' x E. unfold mbind in E. destruct (m s) as [s1 [a|y|]] eqn:Em.
+  - exact (Hk a _ _ _ E).
+  - injection E as <- <-. exact (Hm _ _ _ Em).
+  - discriminate.
+Qed.
+Lemma r_noraise {A} (m : M A) : (forall s s' x, m s <> (s', RRaise x)) -> rspec m.
+Proof. intros H s s' x E. now elim (H s s' x). Qed.
+Lemma r_emit e : rspec (emit e). Proof. apply r_noraise. intros s s' x E. discriminate. Qed.
+Lemma r_mark : rspec (@mark_approx W). Proof. apply r_noraise. intros s s' x E. discriminate. Qed.
+Lemma r_pop : rspec (@pop_answer W).
+Proof. apply r_noraise. intros s s' x E. unfold pop_answer in E. destruct (script s); discriminate. Qed.
+Lemma r_in_ccache k : rspec (@in_ccache W k). Proof. apply r_noraise. intros s s' x E. discriminate. Qed.
+Lemma r_was_seen k : rspec (@was_seen W k). Proof. apply r_noraise. intros s s' x E. discriminate. Qed.
+Lemma r_note_seen k : rspec (@note_seen W k). Proof. apply r_noraise. intros s s' x E. discriminate. Qed.
+Lemma r_note_class k : rspec (@note_class W k). Proof. apply r_noraise. intros s s' x E. discriminate. Qed.
+Lemma r_class_walk n : rspec (class_walk S C n). Proof. apply r_noraise. intros s s' x E. discriminate. Qed.
+Lemma r_cleanup : rspec (@cleanup W). Proof. apply r_noraise. intros s s' x E. discriminate. Qed.
+Lemma r_lend o : rspec (lend S o). Proof. apply r_noraise. intros s s' x E. discriminate. Qed.
+Lemma r_touch op o args : rspec (touch S op o args).
+Proof.
+  intros s s' x E. unfold touch in E. destruct (s_op S (wst s) op o args) as [w r]. injection E as <- ->.
+  unfold auth. cbn. apply incl_appl, incl_refl.
+Qed.
+Lemma r_val_op op v args : rspec (val_op S op v args).
+Proof. intros s s' x E. unfold val_op in E. injection E as <- E. unfold auth. cbn. rewrite E. cbn. apply incl_appl, incl_refl. Qed.
+Lemma r_resolve k : rspec (@resolve W k).
+Proof. intros s s' x E. unfold resolve in E. destruct (tbl_find k (tbl s)) as [[o c]|]; [discriminate|]. injection E as <- <-. apply incl_nil_l. Qed.
+Lemma xid_of_rcls_carried c : carried (xid_of_rcls c) = [].
+Proof. destruct c as [[n|m n]|m n]; try reflexivity. unfold xid_of_rcls. destruct (existsb (text_eqb n) base_only_names); [reflexivity|]. destruct (std_of_name n); reflexivity. Qed.
+Lemma load_exc_carried payload s s' (r : res xid) : load_exc S C payload s = (s', r) ->
+  match r with ROk x | RRaise x => carried x = [] | RUnm => True end.
+Proof.
+  unfold load_exc. destruct (Vinegar.vload _ _ _ payload) as [eff rr].
+  destruct rr as [[| |c a sets st]| | |]; try (intros [= <- <-]; exact Logic.I || reflexivity).
+  destruct (negb (iterable a) || existsb set_fails sets); [intros [= <- <-]; reflexivity|].
+  destruct st; intros [= <- <-]; [apply xid_of_rcls_carried|reflexivity].
+Qed.
+Lemma r_load_exc payload : rspec (load_exc S C payload).
+Proof. intros s s' x E. rewrite (load_exc_carried _ _ _ _ E). apply incl_nil_l. Qed.
+Lemma r_raise_loaded {A} payload : rspec (@raise_loaded W S C A payload).
+Proof.
+  intros s s' x E. unfold raise_loaded in E. destruct (load_exc S C payload s) as [s1 r1] eqn:El.
+  pose proof (load_exc_carried _ _ _ _ El) as H. destruct r1; try discriminate; injection E as <- <-; rewrite H; apply incl_nil_l.
+Qed.
+Lemma r_genexpr {A} (m : M A) : rspec m -> rspec (in_genexpr m).
+Proof.
+  intros H s s' x E. unfold in_genexpr in E. destruct (m s) as [s1 r1] eqn:Em.
+  destruct r1 as [?|[[]| | | | | |]|]; try discriminate; injection E as <- <-; try (exact (H _ _ _ Em)); apply incl_nil_l.
+Qed.
+Lemma r_try_exc {A} (m h : M A) : rspec m -> rspec h -> rspec (try_exc m h).
+Proof.
+  intros Hm Hh s s' x E. unfold try_exc in E. destruct (m s) as [s1 r1] eqn:Em.
+  destruct r1 as [a|y|]; try discriminate. destruct (is_exception y); [exact (Hh _ _ _ E)|]. injection E as <- <-. exact (Hm _ _ _ Em).
+Qed.
+
+Ltac rr1 :=
+  lazymatch goal with
+  | |- rspec (ret _) => apply r_ret
+  | |- rspec (raise_std _) => apply r_raise_std
+  | |- rspec (raise _) => apply r_raise; reflexivity
+  | |- rspec unm => apply r_unm
+  | |- rspec (lift _) => apply r_lift
+  | |- rspec (emit _) => apply r_emit
+  | |- rspec mark_approx => apply r_mark
+  | |- rspec pop_answer => apply r_pop
+  | |- rspec (in_ccache _) => apply r_in_ccache
+  | |- rspec (was_seen _) => apply r_was_seen
+  | |- rspec (note_seen _) => apply r_note_seen
+  | |- rspec (note_class _) => apply r_note_class
+  | |- rspec (class_walk _ _ _) => apply r_class_walk
+  | |- rspec (touch _ _ _ _) => apply r_touch
+  | |- rspec (val_op _ _ _ _) => apply r_val_op
+  | |- rspec (resolve _) => apply r_resolve
+  | |- rspec (lend _ _) => apply r_lend
+  | |- rspec cleanup => apply r_cleanup
+  | |- rspec (load_exc _ _ _) => apply r_load_exc
+  | |- rspec (raise_loaded _ _ _) => apply r_raise_loaded
+  | |- rspec (mbind _ _) => apply r_bind; [|intros ?]
+  | |- rspec (try_exc _ _) => apply r_try_exc
+  | |- rspec (match ?x with _ => _ end) => destruct x
+  | |- rspec (if ?x then _ else _) => destruct x
+  end.
+Lemma r_box f : forall v, rspec (box S BL f v).
+Proof.
+  induction f as [|f IH]; intros v; cbn [box]; [apply r_unm|].
+  destruct (as_value v); [apply r_ret|]. destruct v; try apply r_unm; try (repeat rr1; fail).
+  apply r_bind; [|intros; apply r_ret]. induction l as [|x l IHl]; [apply r_ret|]. apply r_bind; [apply IH|intros]. apply r_bind; [exact IHl|intros; apply r_ret].
+Qed.
+Lemma r_unbox f : forall pkg, rspec (unbox S C UL f pkg).
+Proof.
+  induction f as [|f IH]; intros pkg; cbn [unbox]; [apply r_unm|].
+  apply r_bind; [apply r_lift|intros lv]. destruct lv as [|label [|value [|? ?]]]; try apply r_raise_std.
+  destruct (match num_of label with Some z => assoc_z z UL | None => None end) as [[| | |]|]; [apply r_ret| |apply r_resolve| |apply r_raise_std].
+  - apply r_bind; [apply r_lift|intros items].
+    assert (G : rspec (mbind ((fix go (l : list pyval) : M (list lval) :=
+                             match l with
+                             | [] => ret []
+                             | x :: r => mbind (in_genexpr (unbox S C UL f x)) (fun v => mbind (go r) (fun vs => ret (v :: vs)))
+                             end) items) (fun l => ret (LT l)))).
+    { apply r_bind; [|intros; apply r_ret]. induction items as [|x items IHi]; [apply r_ret|].
+      apply r_bind; [apply r_genexpr, IH|intros]. apply r_bind; [exact IHi|intros; apply r_ret]. }
+    destruct value; try exact G. destruct items as [|? [|? ?]]; try exact G. apply r_unm.
+  - destruct (index3 value) as [[[a b] c]|x|] eqn:Ei; [| |apply r_unm].
+    + destruct (py_str a); [|apply r_unm]. apply r_bind; [apply r_in_ccache|intros cached].
+      destruct (is_zero c && cached); [apply r_ret|]. destruct (is_builtin_name S t); [apply r_ret|]. destruct (negb (sane_name t)); [apply r_unm|].
+      apply r_bind; [apply r_was_seen|intros seen]. apply r_bind; [destruct seen; [apply r_mark|apply r_ret]|intros].
+      apply r_bind; [apply r_note_seen|intros]. apply r_bind; [apply r_emit|intros]. apply r_bind; [apply r_pop|intros ans]. destruct ans.
+      * apply r_bind; [apply IH|intros m]. destruct (methods_ok m) as [|y|] eqn:Em; [repeat rr1| |apply r_unm].
+        apply r_raise. unfold methods_ok in Em. destruct m; try discriminate. destruct (iter_elems false v) as [l| | |]; try discriminate; [destruct (forallb _ l); discriminate|now injection Em as <-].
+      * apply r_raise_loaded.
+      * apply r_raise_std.
+    + apply r_raise. unfold index3 in Ei. destruct value; try (now injection Ei as <-); try discriminate;
+        repeat match goal with H : match ?l with _ => _ end = _ |- _ => destruct l; try (now injection H as <-); try discriminate end.
+Qed.
+Lemma r_ask h args : rspec (ask S C UL BL h args).
+Proof. unfold ask. apply r_bind; [apply r_box|intros]. apply r_bind; [apply r_emit|intros]. apply r_bind; [apply r_pop|intros ans]. destruct ans; [apply r_unbox|apply r_raise_loaded|apply r_raise_std]. Qed.
+Lemma r_converse h args : rspec (converse S C UL BL h args).
+Proof. unfold converse. apply r_bind; [apply r_mark|intros; apply r_ask]. Qed.
+Ltac rr2 := first [ lazymatch goal with
+  | |- rspec (converse _ _ _ _ _ _) => apply r_converse
+  | |- rspec (ask _ _ _ _ _ _) => apply r_ask
+  | |- rspec (unbox _ _ _ _ _) => apply r_unbox
+  | |- rspec (box _ _ _ _) => apply r_box end | rr1].
+Lemma r_iter v : rspec (iter_lval S C UL BL v). Proof. destruct v; cbn [iter_lval]; repeat rr2. Qed.
+Lemma r_kw v : rspec (kw_lval S C UL BL v). Proof. destruct v; cbn [kw_lval]; repeat rr2. Qed.
+Lemma r_truthy v : rspec (truthy S C UL BL v). Proof. destruct v; cbn [truthy]; repeat rr2. Qed.
+Lemma r_islice b : rspec (islice_count S C UL BL b). Proof. destruct b; cbn [islice_count]; repeat rr2. Qed.
+Lemma r_access p tgt nm extra : rspec (access S C UL BL p tgt nm extra).
+Proof.
+  destruct tgt; cbn [access]; try (repeat rr2; fail).
+  intros s s' x E.
+  set (s1 := fold_left _ _ s) in E.
+  destruct (decide (c_guard C) (c_attr C) p (pyname_of nm) (s_view S (wst s) o)) as [[n|final]|e| |]; try discriminate.
+  - destruct (s_hook S (wst s1) o p n extra) as [w r]. injection E as <- ->. unfold auth. cbn. apply incl_appl, incl_refl.
+  - destruct (s_attr S (wst s1) o p final extra) as [w r]. injection E as <- ->. unfold auth. cbn. apply incl_appl, incl_refl.
+  - injection E as <- <-. apply incl_nil_l.
+Qed.
+Ltac rr3 := first [ lazymatch goal with
+  | |- rspec (iter_lval _ _ _ _ _) => apply r_iter
+  | |- rspec (kw_lval _ _ _ _ _) => apply r_kw
+  | |- rspec (truthy _ _ _ _ _) => apply r_truthy
+  | |- rspec (access _ _ _ _ _ _ _ _) => apply r_access
+  | |- rspec (islice_count _ _ _ _ _) => apply r_islice end | rr2].
+Lemma index2_carried v x : index2 v = RRaise x -> carried x = [].
+Proof.
+  unfold index2. destruct v; try (now intros [= <-]); try discriminate;
+    repeat match goal with |- match ?l with _ => _ end = _ -> _ => destruct l; try (now intros [= <-]); try discriminate end.
+Qed.
+Lemma r_do_op op a b : rspec (do_op S C UL BL op a b).
+Proof.
+  destruct op; cbn [do_op]; try (repeat rr3; fail).
+  destruct b; try (repeat rr3; fail). destruct (index2 v) as [[x y]|x|] eqn:Ei; [|apply r_raise; now apply (index2_carried v)|apply r_unm].
+  repeat rr3.
+Qed.
+Lemma r_decref k c : rspec (decref S k c).
+Proof.
+  destruct k; cbn [decref]; try (repeat rr3; fail).
+  intros s s' x E. destruct (tbl_find v (tbl s)) as [[o cnt]|].
+  - destruct c; try discriminate; try (injection E as <- <-; apply incl_nil_l).
+    + destruct v0; try discriminate; injection E as <- <-; apply incl_nil_l.
+    + revert E. apply (r_bind (touch S OpCmp o0 []) (fun _ => unm)); [apply r_touch|intros; apply r_unm].
+  - injection E as <- <-. apply incl_nil_l.
+Qed.
+Ltac rr4 := first [ lazymatch goal with
+  | |- rspec (do_op _ _ _ _ _ _ _) => apply r_do_op
+  | |- rspec (decref _ _ _) => apply r_decref end | rr3].
+Lemma r_eval e : forall env loc, rspec (eval S C UL BL env loc e).
+Proof.
+  induction e; intros env loc; cbn [eval]; unfold ctx_raise;
+    repeat first [ lazymatch goal with |- rspec (eval _ _ _ _ _ _ ?x) => first [apply IHe | apply IHe1 | apply IHe2 | apply IHe3 | apply IHe4] end | rr4 ].
+Qed.
+Lemma r_eval_list l : rspec (eval_list S C UL BL l).
+Proof. induction l; cbn [eval_list]; [apply r_ret|]. apply r_bind; [apply r_eval|intros]. apply r_bind; [exact IHl|intros; apply r_ret]. Qed.
+Lemma r_call_handler hv args : rspec (call_handler S C HT DT UL BL hv args).
+Proof.
+  unfold call_handler.
+  assert (G : rspec match find_handler HT DT hv with
+                | None => raise_std KeyError
+                | Some d =>
+                    mbind (iter_lval S C UL BL args) (fun l =>
+                      let n := List.length l in
+                      if (n <? h_min d)%nat || (h_min d + List.length (h_defaults d) <? n)%nat then raise_std TypeError
+                      else mbind (eval_list S C UL BL (skipn (n - h_min d) (h_defaults d))) (fun ds => eval S C UL BL (l ++ ds) [] (h_body d)))
+                end).
+  { destruct (find_handler HT DT hv); [|apply r_raise_std]. apply r_bind; [apply r_iter|intros l]. cbn zeta.
+    destruct (_ || _); [apply r_raise_std|]. apply r_bind; [apply r_eval_list|intros; apply r_eval]. }
+  destruct hv; try exact G; apply r_unm.
 Qed.
 
 (* ------------------------------------------------------------------ requests and messages *)
@@ -685,6 +938,22 @@ Proof.
   destruct (cleanup s) as [s1 r1] eqn:E. cbn. exact (proj1 (spec_cleanup (fun _ => True) _ _ _ I Logic.I E)).
 Qed.
 
+Lemma inv_payload x (cs : list (oid * nop)) : forall s, Inv s -> incl (carried x) (auth s) ->
+  Inv (fold_left add_ev (map (fun c => ECtx (fst c) (snd c)) cs ++ payload_events x) s).
+Proof.
+  assert (K : forall l s, Inv s -> (forall e, In e l -> (exists o op, e = ECtx o op) \/ exists o op, e = EPayload o op /\ In o (auth s)) -> Inv (fold_left add_ev l s)).
+  { induction l as [|e l IHl]; intros s I H; cbn; [exact I|].
+    assert (I1 : Inv (add_ev s e)).
+    { destruct (H e (or_introl eq_refl)) as [(o & op & ->)|(o & op & -> & Ho)]; (apply inv_add; [exact I| |cbn; apply I]); [exact Logic.I|exact Ho]. }
+    apply IHl; [exact I1|]. intros e' He'. destruct (H e' (or_intror He')) as [Hc|(o' & op' & -> & Ho')]; [now left|right].
+    exists o', op'. split; [reflexivity|]. apply (auth_add s e); [|exact Ho'].
+    destruct (H e (or_introl eq_refl)) as [(o & op & ->)|(o & op & -> & _)]; discriminate. }
+  intros s I H. apply K; [exact I|]. intros e He. apply in_app_or in He as [He|He].
+  - left. apply in_map_iff in He as (c & <- & _). eauto.
+  - right. destruct x; cbn in He; try contradiction.
+    + apply in_app_or in He as [He|He]; apply in_map_iff in He as (o & <- & Ho); eexists _, _; (split; [reflexivity|apply H; exact Ho]).
+    + destruct He as [<-|[<-|[]]]; eexists _, _; (split; [reflexivity|apply H; now left]).
+Qed.
 Lemma inv_dispatch_request seq raw s s' o : Inv s -> dispatch_request S C HT DT UL BL seq raw s = (s', o) -> Inv s'.
 Proof.
   intros I E. unfold dispatch_request in E.
@@ -694,6 +963,9 @@ Proof.
     destruct ha as [|h [|pkg [|? ?]]]; try apply spec_raise.
     sp_bind holds; [eapply spec_pre; [apply spec_unbox|intros; exact Logic.I]|]. intros args.
     eapply spec_pre; [apply spec_call_handler|tauto]. }
+  assert (Hr : rspec mm).
+  { subst mm. apply r_bind; [apply r_lift|intros ha]. destruct ha as [|h [|pkg [|? ?]]]; try apply r_raise_std.
+    apply r_bind; [apply r_unbox|intros; apply r_call_handler]. }
   destruct (mm s) as [s1 r1] eqn:Em. destruct (Hm _ _ _ I Logic.I Em) as (I1 & X1 & Q1).
   destruct r1 as [v|x|].
   - destruct (closed s1); [now injection E as <- <-|].
@@ -701,18 +973,19 @@ Proof.
     destruct (spec_box FUEL v _ _ _ I1 (Q1 v eq_refl) Eb) as (I2 & _ & _).
     destruct r2; now injection E as <- <-.
   - destruct (closed s1); [now injection E as <- <-|].
-    destruct (propagates C x); injection E as <- <-; [now apply inv_end_conn|exact I1].
+    destruct (propagates C x); injection E as <- <-; [now apply inv_end_conn|].
+    apply inv_payload; [exact I1|exact (Hr _ _ _ Em)].
   - now injection E as <- <-.
 Qed.
 
-Theorem inv_handle_msg msg answers s s' o : Inv s -> handle_msg S C HT DT ML UL BL msg answers s = (s', o) -> Inv s'.
+Lemma inv_handle_msg_core msg answers s s' o : Inv s -> handle_msg_core S C HT DT ML UL BL msg answers s = (s', o) -> Inv s'.
 Proof.
-  intros I E. unfold handle_msg in E. destruct (closed s); [now injection E as <- <-|].
-  set (s0 := with_script (add_ev s EMsg) answers) in *.
+  intros I E. unfold handle_msg_core in E. destruct (closed s); [now injection E as <- <-|].
+  set (s0 := with_ctxs (with_script (add_ev s EMsg) answers) []) in *.
   assert (I0 : Inv s0). { destruct I as [Hw Ht]. split; cbn; [split; [exact Hw|exact Logic.I]|exact Ht]. }
   destruct (Vinegar.unpack 3 msg) as [l| | |].
   - destruct l as [|kind [|seq [|args [|? ?]]]]; try (injection E as <- <-; now apply inv_end_conn).
-    destruct (match num_of kind with Some z => assoc_z z ML | None => None end) as [[| |]|].
+    destruct (match num_of kind with Some z => assoc_z z ML | None => None end) as [[| | | |]|].
     + eapply inv_dispatch_request; eauto.
     + destruct (unbox S C UL FUEL args s0) as [s1 r1] eqn:Eu.
       destruct (spec_unbox FUEL args _ _ _ I0 Logic.I Eu) as (I1 & _ & _).
@@ -720,12 +993,24 @@ Proof.
     + destruct (load_exc S C args s0) as [s1 r1] eqn:Eu.
       destruct (spec_load_exc (fun _ => True) args _ _ _ I0 Logic.I Eu) as (I1 & _ & _).
       destruct r1; injection E as <- <-; auto using inv_end_conn.
+    + destruct (unbox S C UL FUEL args s0) as [s1 r1] eqn:Eu. unfold response_out in E.
+      destruct (spec_unbox FUEL args _ _ _ I0 Logic.I Eu) as (I1 & _ & _).
+      destruct r1 as [?|x|]; try destruct (escapes_response x); injection E as <- <-; auto using inv_end_conn.
+    + destruct (load_exc S C args s0) as [s1 r1] eqn:Eu. unfold response_out in E.
+      destruct (spec_load_exc (fun _ => True) args _ _ _ I0 Logic.I Eu) as (I1 & _ & _).
+      destruct r1 as [?|x|]; try destruct (escapes_response x); injection E as <- <-; auto using inv_end_conn.
     + injection E as <- <-. now apply inv_end_conn.
   - injection E as <- <-. now apply inv_end_conn.
   - now injection E as <- <-.
   - now injection E as <- <-.
 Qed.
 
+Theorem inv_handle_msg msg answers s s' o : Inv s -> handle_msg S C HT DT ML UL BL msg answers s = (s', o) -> Inv s'.
+Proof.
+  intros I E. unfold handle_msg in E. destruct (lost s); [now injection E as <- <-|].
+  destruct (handle_msg_core S C HT DT ML UL BL msg answers s) as [s1 o1] eqn:Ec.
+  pose proof (inv_handle_msg_core _ _ _ _ _ I Ec) as I1. destruct o1; injection E as <- <-; exact I1.
+Qed.
 Lemma inv_step s i : Inv s -> Inv (fst (step S C HT DT ML UL BL s i)).
 Proof.
   intros I. destruct i as [m a|f]; cbn [step].
@@ -833,7 +1118,11 @@ Notation state := (hst W).
 Notation M := (@Hostile.M W).
 
 Definition touching (e : event) : bool :=
-  match e with ETouch _ _ _ | EAttr _ _ _ _ | EHook _ _ _ _ | EEnv => true | _ => false end.
+  match e with
+  | ETouch _ _ _ | EAttr _ _ _ _ | EHook _ _ _ _ | EEnv => true
+  | EProbe _ _ | EDisconnect | EPayload _ _ | ECtx _ _ => true       (* hasattr probes, on_disconnect, repr()/dir() of exception payloads run service code too *)
+  | _ => false
+  end.
 Definition nt (t : list event) : nat := List.length (filter touching t).
 Definition qrel (s s' : state) : Prop := (nt (tr s) <= nt (tr s'))%nat /\ (nt (tr s') = nt (tr s) -> wst s' = wst s).
 Definition qspec {A} (m : M A) : Prop := forall s s' r, m s = (s', r) -> qrel s s'.
@@ -880,6 +1169,10 @@ Proof.
   induction l as [|x l IH]; intros s; cbn; [auto|]. destruct (IH (add_ev s (f x))) as [A B]. cbn zeta in A, B.
   rewrite A, B. unfold nt. cbn. now rewrite Hf.
 Qed.
+Lemma q_fold_any {X} (f : X -> event) l : forall s : state, qrel s (fold_left (fun s e => add_ev s (f e)) l s).
+Proof.
+  induction l as [|x l IH]; intros s; cbn; [apply qrel_refl|]. eapply qrel_trans; [apply (qrel_add s (f x))|apply IH].
+Qed.
 Lemma q_load_exc payload : qspec (load_exc S C payload).
 Proof.
   intros s s' r E. unfold load_exc in E. destruct (Vinegar.vload Vinegar.LkGetattr (c_rflags C) (s_env S) payload) as [eff rr].
@@ -889,8 +1182,30 @@ Proof.
   subst s'. split; [lia|auto].
 Qed.
 
+Lemma q_in_ccache k : qspec (@in_ccache W k). Proof. intros s s' r [= <- <-]. apply qrel_refl. Qed.
+Lemma q_was_seen k : qspec (@was_seen W k). Proof. intros s s' r [= <- <-]. apply qrel_refl. Qed.
+Lemma q_note_seen k : qspec (@note_seen W k). Proof. intros s s' r [= <- <-]. now apply qrel_same. Qed.
+Lemma q_note_class k : qspec (@note_class W k). Proof. intros s s' r [= <- <-]. now apply qrel_same. Qed.
+Lemma q_class_walk n : qspec (class_walk S C n).
+Proof.
+  intros s s' r E. unfold class_walk, emit_all in E. injection E as <- <-.
+  assert (K : forall l (s0 : state), nt (tr (fold_left add_ev (map ECls l) s0)) = nt (tr s0) /\ wst (fold_left add_ev (map ECls l) s0) = wst s0).
+  { induction l as [|m l IHl]; intros s0; cbn; [auto|]. destruct (IHl (add_ev s0 (ECls m))) as [A B]. rewrite A, B. auto. }
+  destruct (K (class_imports S C n) s) as [A B]. split; [lia|auto].
+Qed.
+Lemma q_raise_loaded {A} payload : qspec (@raise_loaded W S C A payload).
+Proof.
+  intros s s' r E. unfold raise_loaded in E. destruct (load_exc S C payload s) as [s1 r1] eqn:El.
+  pose proof (q_load_exc _ _ _ _ El) as Q. destruct r1; now injection E as <- <-.
+Qed.
 Ltac q1 :=
   lazymatch goal with
+  | |- qspec (in_ccache _) => apply q_in_ccache
+  | |- qspec (was_seen _) => apply q_was_seen
+  | |- qspec (note_seen _) => apply q_note_seen
+  | |- qspec (note_class _) => apply q_note_class
+  | |- qspec (class_walk _ _ _) => apply q_class_walk
+  | |- qspec (raise_loaded _ _ _) => apply q_raise_loaded
   | |- qspec (ret _) => apply q_ret
   | |- qspec (raise _) => apply q_raise
   | |- qspec (raise_std _) => apply q_raise
@@ -921,7 +1236,7 @@ Proof.
   apply q_bind; [|intros; apply q_ret]. induction l as [|x l IHl]; [apply q_ret|]. apply q_bind; [apply IH|intros]. apply q_bind; [exact IHl|intros; apply q_ret].
 Qed.
 Lemma q_genexpr {A} (m : M A) : qspec m -> qspec (in_genexpr m).
-Proof. intros H s s' r E. unfold in_genexpr in E. destruct (m s) as [s1 r1] eqn:Em. specialize (H _ _ _ Em). destruct r1 as [?|[[]| | | |]|]; now injection E as <- <-. Qed.
+Proof. intros H s s' r E. unfold in_genexpr in E. destruct (m s) as [s1 r1] eqn:Em. specialize (H _ _ _ Em). destruct r1 as [?|[[]| | | | | |]|]; now injection E as <- <-. Qed.
 Lemma q_unbox f : forall pkg, qspec (unbox S C UL f pkg).
 Proof.
   induction f as [|f IH]; intros pkg; cbn [unbox]; [apply q_unm|].
@@ -937,14 +1252,11 @@ Proof.
       apply q_bind; [apply q_genexpr, IH|intros]. apply q_bind; [exact IHi|intros; apply q_ret]. }
     destruct value; try exact G. destruct items as [|? [|? ?]]; try exact G. apply q_unm.
   - destruct (index3 value) as [[[a b] c]|x|]; [|apply q_raise|apply q_unm].
-    destruct (py_str a); [|apply q_unm]. destruct (is_builtin_name S t); [apply q_ret|]. destruct (negb (sane_name t)); [apply q_unm|].
-    apply q_bind; [apply q_emit|intros]. apply q_bind; [apply q_pop|intros ans]. destruct ans.
-    + apply q_bind; [apply IH|intros m]. destruct (methods_ok m); qauto.
-    + qauto.
-    + qauto.
+    destruct (py_str a); [|apply q_unm].
+    repeat first [q1 | qd | lazymatch goal with |- qspec (unbox _ _ _ f _) => apply IH end].
 Qed.
 Lemma q_ask h args : qspec (ask S C UL BL h args).
-Proof. unfold ask. apply q_bind; [apply q_box|intros]. apply q_bind; [apply q_emit|intros]. apply q_bind; [apply q_pop|intros ans]. destruct ans; [apply q_unbox|qauto|qauto]. Qed.
+Proof. unfold ask. apply q_bind; [apply q_box|intros]. apply q_bind; [apply q_emit|intros]. apply q_bind; [apply q_pop|intros ans]. destruct ans; [apply q_unbox|apply q_raise_loaded|qauto]. Qed.
 Lemma q_converse h args : qspec (converse S C UL BL h args).
 Proof. unfold converse. apply q_bind; [apply q_mark|intros; apply q_ask]. Qed.
 Hint Resolve q_converse q_ask q_unbox q_box : qs.
@@ -963,9 +1275,8 @@ Lemma q_access p tgt nm extra : qspec (access S C UL BL p tgt nm extra).
 Proof.
   destruct tgt; cbn [access]; try (repeat q2; fail).
   intros s s' r E.
-  destruct (q_fold (fun e => EProbe o (ev_name e)) (fun _ => eq_refl) (probes_of (c_attr C) p (pyname_of nm) (s_view S (wst s) o)) s) as [A B].
-  cbn zeta in A, B. set (s1 := fold_left _ _ s) in *.
-  assert (Q1 : qrel s s1) by (split; [lia|auto]).
+  pose proof (q_fold_any (fun e => EProbe o (ev_name e)) (probes_of (c_attr C) p (pyname_of nm) (s_view S (wst s) o)) s) as Q1.
+  set (s1 := fold_left _ _ s) in *.
   destruct (decide (c_guard C) (c_attr C) p (pyname_of nm) (s_view S (wst s) o)) as [[n|final]|e| |].
   - destruct (s_hook S (wst s1) o p n extra). injection E as <- <-. eapply qrel_trans; [exact Q1|now apply qrel_touch].
   - destruct (s_attr S (wst s1) o p final extra). injection E as <- <-. eapply qrel_trans; [exact Q1|now apply qrel_touch].
@@ -999,7 +1310,8 @@ Lemma q_try_exc {A} (m h : M A) : qspec m -> qspec h -> qspec (try_exc m h).
 Proof.
   intros Hm Hh s s' r E. unfold try_exc in E. destruct (m s) as [s1 r1] eqn:E1. pose proof (Hm _ _ _ E1) as Q1.
   destruct r1 as [a|x|]; [now injection E as <- <-| |now injection E as <- <-].
-  destruct (is_exception x); [|now injection E as <- <-]. eapply qrel_trans; [exact Q1|exact (Hh _ _ _ E)].
+  destruct (is_exception x); [|now injection E as <- <-]. eapply qrel_trans; [exact Q1|].
+  eapply qrel_trans; [|exact (Hh _ _ _ E)]. now apply qrel_same.
 Qed.
 Lemma q_eval e : forall env loc, qspec (eval S C UL BL env loc e).
 Proof.
@@ -1044,27 +1356,38 @@ Proof.
     destruct (box S BL FUEL v s1) as [s2 r2] eqn:Eb. pose proof (q_box _ _ _ _ _ Eb) as Q2.
     destruct r2; injection E as <- <-; eapply qrel_trans; eauto.
   - destruct (closed s1); [now injection E as <- <-|].
-    destruct (propagates C x); injection E as <- <-; [eapply qrel_trans; [exact Q1|apply qrel_end_conn]|exact Q1].
+    destruct (propagates C x); injection E as <- <-; [eapply qrel_trans; [exact Q1|apply qrel_end_conn]|].
+    eapply qrel_trans; [exact Q1|]. exact (q_fold_any (fun e => e) (map (fun c => ECtx (fst c) (snd c)) (rev (ctxs s1)) ++ payload_events x) s1).
   - now injection E as <- <-.
 Qed.
 
-(* a message whose handling adds no touching event leaves the service state as it was *)
-Theorem q_handle_msg msg answers s s' o : handle_msg S C HT DT ML UL BL msg answers s = (s', o) -> qrel s s'.
+Lemma q_handle_msg_core msg answers s s' o : handle_msg_core S C HT DT ML UL BL msg answers s = (s', o) -> qrel s s'.
 Proof.
-  intros E. unfold handle_msg in E. destruct (closed s); [injection E as <- <-; apply qrel_refl|].
-  set (s0 := with_script (add_ev s EMsg) answers) in *.
+  intros E. unfold handle_msg_core in E. destruct (closed s); [injection E as <- <-; apply qrel_refl|].
+  set (s0 := with_ctxs (with_script (add_ev s EMsg) answers) []) in *.
   assert (Q0 : qrel s s0) by (apply (qrel_add s EMsg)).
   assert (QE : forall s1, qrel s0 s1 -> qrel s (end_conn s1)).
   { intros s1 Q. eapply qrel_trans; [exact Q0|]. eapply qrel_trans; [exact Q|apply qrel_end_conn]. }
   destruct (Vinegar.unpack 3 msg) as [l| | |]; try (injection E as <- <-; first [exact Q0 | apply QE, qrel_refl]).
   destruct l as [|kind [|seq [|args [|? ?]]]]; try (injection E as <- <-; apply QE, qrel_refl).
-  destruct (match num_of kind with Some z => assoc_z z ML | None => None end) as [[| |]|].
+  destruct (match num_of kind with Some z => assoc_z z ML | None => None end) as [[| | | |]|].
   - eapply qrel_trans; [exact Q0|eapply q_dispatch_request; eauto].
   - destruct (unbox S C UL FUEL args s0) as [s1 r1] eqn:Eu. pose proof (q_unbox _ _ _ _ _ Eu) as Q1.
     destruct r1; injection E as <- <-; first [exact (QE _ Q1) | exact (qrel_trans _ _ _ Q0 Q1)].
   - destruct (load_exc S C args s0) as [s1 r1] eqn:Eu. pose proof (q_load_exc _ _ _ _ Eu) as Q1.
     destruct r1; injection E as <- <-; first [exact (QE _ Q1) | exact (qrel_trans _ _ _ Q0 Q1)].
+  - destruct (unbox S C UL FUEL args s0) as [s1 r1] eqn:Eu. unfold response_out in E. pose proof (q_unbox _ _ _ _ _ Eu) as Q1.
+    destruct r1 as [?|x|]; try destruct (escapes_response x); injection E as <- <-; first [exact (QE _ Q1) | exact (qrel_trans _ _ _ Q0 Q1)].
+  - destruct (load_exc S C args s0) as [s1 r1] eqn:Eu. unfold response_out in E. pose proof (q_load_exc _ _ _ _ Eu) as Q1.
+    destruct r1 as [?|x|]; try destruct (escapes_response x); injection E as <- <-; first [exact (QE _ Q1) | exact (qrel_trans _ _ _ Q0 Q1)].
   - injection E as <- <-. apply QE, qrel_refl.
+Qed.
+(* a message whose handling adds no touching event leaves the service state as it was *)
+Theorem q_handle_msg msg answers s s' o : handle_msg S C HT DT ML UL BL msg answers s = (s', o) -> qrel s s'.
+Proof.
+  intros E. unfold handle_msg in E. destruct (lost s); [injection E as <- <-; apply qrel_refl|].
+  destruct (handle_msg_core S C HT DT ML UL BL msg answers s) as [s1 o1] eqn:Ec.
+  pose proof (q_handle_msg_core _ _ _ _ _ Ec) as Q. destruct o1; injection E as <- <-; exact Q.
 Qed.
 End Quiet.
 
@@ -1091,13 +1414,13 @@ Definition kind_of (msg : pyval) : option (dact * pyval * pyval) :=
 
 (* a request is answered with its own sequence number (value or exception), or the connection ends (a local
    KeyboardInterrupt/SystemExit that the configuration propagates, or the peer's own close request) *)
-Theorem request_outcome msg answers (s s' : hst W) o seq args :
+Lemma request_outcome_core msg answers (s s' : hst W) o seq args :
   closed s = false -> kind_of msg = Some (DRequest, seq, args) ->
-  handle_msg S C HT DT ML UL BL msg answers s = (s', o) ->
+  handle_msg_core S C HT DT ML UL BL msg answers s = (s', o) ->
   (exists p, o = OReply seq p) \/ (exists x, o = OExc seq x /\ propagates C x = false) \/
   (exists x, o = OEnd x /\ propagates C x = true /\ closed s' = true) \/ (o = OClosed /\ closed s' = true) \/ o = OUnm.
 Proof.
-  intros Hc Hk E. unfold handle_msg in E. rewrite Hc in E. unfold kind_of in Hk.
+  intros Hc Hk E. unfold handle_msg_core in E. rewrite Hc in E. unfold kind_of in Hk.
   destruct (Vinegar.unpack 3 msg) as [l| | |]; try discriminate.
   destruct l as [|kind [|seq' [|args' [|? ?]]]]; try discriminate.
   destruct (match num_of kind with Some z => assoc_z z ML | None => None end) as [d|]; [|discriminate].
@@ -1113,26 +1436,94 @@ Proof.
   - injection E as <- <-. auto 6.
 Qed.
 (* anything else is never answered: it is dropped or this connection ends *)
-Theorem other_outcome msg answers (s s' : hst W) o :
+Lemma other_outcome_core msg answers (s s' : hst W) o :
   closed s = false -> (forall seq args, kind_of msg <> Some (DRequest, seq, args)) ->
-  handle_msg S C HT DT ML UL BL msg answers s = (s', o) ->
+  handle_msg_core S C HT DT ML UL BL msg answers s = (s', o) ->
   o = OIgnored \/ (exists x, o = OEnd x /\ closed s' = true) \/ o = OUnm.
 Proof.
-  intros Hc Hk E. unfold handle_msg in E. rewrite Hc in E. unfold kind_of in Hk.
+  intros Hc Hk E. unfold handle_msg_core in E. rewrite Hc in E. unfold kind_of in Hk.
   assert (EC : forall s1 : hst W, closed (end_conn s1) = true).
   { intros s1. unfold end_conn. destruct (closed s1) eqn:X; [exact X|reflexivity]. }
   destruct (Vinegar.unpack 3 msg) as [l| | |]; try (injection E as <- <-; eauto).
   destruct l as [|kind [|seq [|args [|? ?]]]]; try (injection E as <- <-; eauto).
-  destruct (match num_of kind with Some z => assoc_z z ML | None => None end) as [[| |]|].
+  destruct (match num_of kind with Some z => assoc_z z ML | None => None end) as [[| | | |]|].
   - now elim (Hk seq args).
   - destruct (unbox S C UL FUEL args _) as [s1 [?|?|]]; injection E as <- <-; eauto.
   - destruct (load_exc S C args _) as [s1 [?|?|]]; injection E as <- <-; eauto.
+  - destruct (unbox S C UL FUEL args _) as [s1 [?|x|]]; unfold response_out in E; try destruct (escapes_response x); injection E as <- <-; eauto.
+  - destruct (load_exc S C args _) as [s1 [?|x|]]; unfold response_out in E; try destruct (escapes_response x); injection E as <- <-; eauto.
   - injection E as <- <-; eauto.
 Qed.
-Theorem dead_outcome msg answers (s s' : hst W) o :
-  closed s = true -> handle_msg S C HT DT ML UL BL msg answers s = (s', o) -> o = ODead /\ s' = s.
-Proof. intros Hc E. unfold handle_msg in E. rewrite Hc in E. now injection E as <- <-. Qed.
+(* through _dispatch_response a response that cannot be rebuilt is delivered to the request it answers (dropped when none waits);
+   only EOFError or something that is not an Exception still leaves serve() *)
+Lemma guarded_response_outcome_core msg answers (s s' : hst W) o d seq args :
+  closed s = false -> kind_of msg = Some (d, seq, args) -> d = DReplyG \/ d = DExceptionG ->
+  handle_msg_core S C HT DT ML UL BL msg answers s = (s', o) ->
+  o = OIgnored \/ (exists x, o = OEnd x /\ escapes_response x = true /\ closed s' = true) \/ o = OUnm.
+Proof.
+  intros Hc Hk Hd E. unfold handle_msg_core in E. rewrite Hc in E. unfold kind_of in Hk.
+  assert (EC : forall s1 : hst W, closed (end_conn s1) = true).
+  { intros s1. unfold end_conn. destruct (closed s1) eqn:X; [exact X|reflexivity]. }
+  destruct (Vinegar.unpack 3 msg) as [l| | |]; try discriminate.
+  destruct l as [|kind [|seq' [|args' [|? ?]]]]; try discriminate.
+  destruct (match num_of kind with Some z => assoc_z z ML | None => None end) as [d'|]; [|discriminate].
+  injection Hk as -> <- <-.
+  destruct Hd as [-> | ->].
+  - destruct (unbox S C UL FUEL args' _) as [s1 [?|x|]]; unfold response_out in E; try destruct (escapes_response x) eqn:Ex; injection E as <- <-; eauto 6.
+  - destruct (load_exc S C args' _) as [s1 [?|x|]]; unfold response_out in E; try destruct (escapes_response x) eqn:Ex; injection E as <- <-; eauto 6.
+Qed.
+Lemma dead_outcome_core msg answers (s s' : hst W) o :
+  closed s = true -> handle_msg_core S C HT DT ML UL BL msg answers s = (s', o) -> o = ODead /\ s' = s.
+Proof. intros Hc E. unfold handle_msg_core in E. rewrite Hc in E. now injection E as <- <-. Qed.
 
+(* handle_msg = handle_msg_core, except that an unmodelled outcome is remembered *)
+Lemma handle_msg_core_eq msg answers (s s' : hst W) o : lost s = false ->
+  handle_msg S C HT DT ML UL BL msg answers s = (s', o) ->
+  exists s1, handle_msg_core S C HT DT ML UL BL msg answers s = (s1, o) /\ closed s' = closed s1 /\ (o <> OUnm -> s' = s1).
+Proof.
+  intros Hl E. unfold handle_msg in E. rewrite Hl in E.
+  destruct (handle_msg_core S C HT DT ML UL BL msg answers s) as [s1 o1]. exists s1.
+  destruct o1; injection E as <- <-; (split; [reflexivity|split; [reflexivity|]]); try reflexivity; intros H; now elim H.
+Qed.
+Theorem request_outcome msg answers (s s' : hst W) o seq args :
+  lost s = false -> closed s = false -> kind_of msg = Some (DRequest, seq, args) ->
+  handle_msg S C HT DT ML UL BL msg answers s = (s', o) ->
+  (exists p, o = OReply seq p) \/ (exists x, o = OExc seq x /\ propagates C x = false) \/
+  (exists x, o = OEnd x /\ propagates C x = true /\ closed s' = true) \/ (o = OClosed /\ closed s' = true) \/ o = OUnm.
+Proof.
+  intros Hl Hc Hk E. destruct (handle_msg_core_eq _ _ _ _ _ Hl E) as (s1 & E1 & Ec & _). rewrite Ec.
+  exact (request_outcome_core _ _ _ _ _ _ _ Hc Hk E1).
+Qed.
+Theorem other_outcome msg answers (s s' : hst W) o :
+  lost s = false -> closed s = false -> (forall seq args, kind_of msg <> Some (DRequest, seq, args)) ->
+  handle_msg S C HT DT ML UL BL msg answers s = (s', o) ->
+  o = OIgnored \/ (exists x, o = OEnd x /\ closed s' = true) \/ o = OUnm.
+Proof.
+  intros Hl Hc Hk E. destruct (handle_msg_core_eq _ _ _ _ _ Hl E) as (s1 & E1 & Ec & _). rewrite Ec.
+  exact (other_outcome_core _ _ _ _ _ Hc Hk E1).
+Qed.
+Theorem guarded_response_outcome msg answers (s s' : hst W) o d seq args :
+  lost s = false -> closed s = false -> kind_of msg = Some (d, seq, args) -> d = DReplyG \/ d = DExceptionG ->
+  handle_msg S C HT DT ML UL BL msg answers s = (s', o) ->
+  o = OIgnored \/ (exists x, o = OEnd x /\ escapes_response x = true /\ closed s' = true) \/ o = OUnm.
+Proof.
+  intros Hl Hc Hk Hd E. destruct (handle_msg_core_eq _ _ _ _ _ Hl E) as (s1 & E1 & Ec & _). rewrite Ec.
+  exact (guarded_response_outcome_core _ _ _ _ _ _ _ _ Hc Hk Hd E1).
+Qed.
+Theorem dead_outcome msg answers (s s' : hst W) o :
+  lost s = false -> closed s = true -> handle_msg S C HT DT ML UL BL msg answers s = (s', o) -> o = ODead /\ s' = s.
+Proof.
+  intros Hl Hc E. destruct (handle_msg_core_eq _ _ _ _ _ Hl E) as (s1 & E1 & _ & Hs).
+  destruct (dead_outcome_core _ _ _ _ _ Hc E1) as [-> ->]. split; [reflexivity|]. apply Hs. discriminate.
+Qed.
+(* once the model met something it does not describe it says nothing any more: every later outcome is OUnm, nothing changes *)
+Theorem lost_is_absorbing msg answers (s : hst W) : lost s = true -> handle_msg S C HT DT ML UL BL msg answers s = (s, OUnm).
+Proof. intros H. unfold handle_msg. now rewrite H. Qed.
+Theorem unmodelled_sets_lost msg answers (s s' : hst W) : handle_msg S C HT DT ML UL BL msg answers s = (s', OUnm) -> lost s' = true.
+Proof.
+  unfold handle_msg. destruct (lost s) eqn:Hl; [now intros [= <-]|].
+  destruct (handle_msg_core S C HT DT ML UL BL msg answers s) as [s1 o1]. destruct o1; intros [= <-]; reflexivity.
+Qed.
 (* a reference that is not in this connection's table is refused: KeyError, nothing touched, nothing changed *)
 Lemma unbox_forged f key (s : hst W) : tbl_find key (tbl s) = None -> assoc_z 3 UL = Some ULocal ->
   unbox S C UL (Datatypes.S f) (PTuple [PInt 3; key]) s = (add_ev s (EMiss key), RRaise (XStd KeyError)).
@@ -1160,6 +1551,7 @@ Variable DT : list (Z * string).
 Variable ML : list (Z * dact).
 Variable UL : list (Z * uact).
 Variable BL : list (string * Z).
+Hypothesis Sval : val_closed S.
 Hypothesis HTpk : table_pk C HT.
 Notation RUN w l := (run S C HT DT ML UL BL (init w) l).
 
@@ -1177,13 +1569,13 @@ Theorem miss_not_lent w l t1 k t2 : tr (RUN w l) = t1 ++ EMiss k :: t2 -> tbl_fi
 Proof. intros E. exact (trace_event_ok _ _ _ _ _ E). Qed.
 (* the table changes by lend / release / clear events only: at any moment it is the replay of those events *)
 Theorem table_is_replay w l : tbl (RUN w l) = g_tbl (ghost_of (tr (RUN w l))).
-Proof. symmetry. exact (proj2 (inv_run S C HT DT ML UL BL HTpk l _ (inv_init S C w))). Qed.
+Proof. symmetry. exact (proj2 (inv_run S C HT DT ML UL BL Sval HTpk l _ (inv_init S C w))). Qed.
 
 (* 2. whatever is touched, probed, accessed by name, lent or pickled is held by the request: it came from the root, from the
       table, from type() of such an object, or out of a permitted operation earlier in the same request *)
 Definition target (e : event) : option oid :=
   match e with
-  | EProbe o _ | EAttr o _ _ _ | EHook o _ _ _ | ETouch o _ _ | EBox _ o | EType o _ => Some o
+  | EProbe o _ | EAttr o _ _ _ | EHook o _ _ _ | ETouch o _ _ | EBox _ o | EType o _ | EPayload o _ => Some o
   | _ => None
   end.
 Theorem touched_only_held w l t1 e t2 o : tr (RUN w l) = t1 ++ e :: t2 -> target e = Some o ->
@@ -1196,6 +1588,11 @@ Qed.
 (* 3. pickling needs allow_pickle *)
 Theorem pickle_needs_switch w l t1 o ys t2 : tr (RUN w l) = t1 ++ ETouch o OpPickle ys :: t2 -> c_pickle C = true.
 Proof. intros E. pose proof (trace_event_ok _ _ _ _ _ E) as [_ H]. now apply H. Qed.
+(* 3'. netref.class_factory runs a module-level __getattr__ hook for a peer-declared name only if it reads the class with getattr
+       (generated fact c_cls_mode): with the module's own __dict__ (LkDict) no module is ever imported that way *)
+Theorem class_hook_needs_getattr w l t1 m t2 : tr (RUN w l) = t1 ++ ECls m :: t2 ->
+  Vinegar.hooks_run (c_cls_mode C) (c_rflags C) = true.
+Proof. intros E. exact (trace_event_ok _ _ _ _ _ E). Qed.
 (* 4. what an exception record can make vinegar.load do (an import needs import_custom, or -- through a module-level
       __getattr__ consulted by the class lookup, see props/C09.v 3a/3b -- instantiate_custom) *)
 Theorem vinegar_effects w l t1 v t2 : tr (RUN w l) = t1 ++ EVin v :: t2 ->
@@ -1237,16 +1634,23 @@ Proof.
   intros F. cbn [unbox]. unfold mbind, lift, in_genexpr, resolve. cbn. now rewrite F.
 Qed.
 Theorem forged_reference_refused {W} (S : sem W) (s : hst W) seq h key rest answers :
-  closed s = false -> tbl_find key (tbl s) = None ->
+  lost s = false -> closed s = false -> tbl_find key (tbl s) = None ->
   let msg := PTuple [PInt 1; seq; PTuple [h; PTuple [PInt 2; PTuple (PTuple [PInt 3; key] :: rest)]]] in
   exists s', handle_msg S default_config handlers dispatch msg_ladder unbox_ladder box_ladder msg answers s = (s', OExc seq (XStd KeyError))
     /\ wst s' = wst s /\ tbl s' = tbl s /\ tr s' = EMiss key :: EMsg :: tr s /\ closed s' = false.
 Proof.
-  intros Hc F msg. subst msg. unfold handle_msg. rewrite Hc.
+  intros Hl Hc F msg. subst msg. unfold handle_msg. rewrite Hl. unfold handle_msg_core. rewrite Hc.
   cbn [Vinegar.unpack iter_elems bind List.length Nat.eqb num_of assoc_z msg_ladder Z.eqb].
   unfold dispatch_request. unfold mbind at 1. cbn [Vinegar.unpack iter_elems bind List.length Nat.eqb lift ret].
   unfold mbind at 1. change FUEL with (Datatypes.S (Datatypes.S 62)).
-  rewrite (unbox_first_miss S default_config 62 key rest (with_script (add_ev s EMsg) answers)) by exact F.
-  cbn [closed with_script add_ev with_tr]. rewrite Hc. cbn [propagates].
+  rewrite (unbox_first_miss S default_config 62 key rest (with_ctxs (with_script (add_ev s EMsg) answers) [])) by exact F.
+  cbn [closed with_script add_ev with_tr with_ctxs]. rewrite Hc. cbn [propagates].
   eexists. split; [reflexivity|]. cbn. auto.
+Qed.
+
+(* the finite canary world of the harness meets the hypothesis on plain-value operations *)
+Lemma world_sem_val_closed w excs mods : val_closed (world_sem w excs mods).
+Proof.
+  intros op v args. cbn [s_val world_sem]. destruct op; cbn; try apply incl_nil_l.
+  destruct v; cbn; try apply incl_nil_l. destruct l; cbn; apply incl_nil_l.
 Qed.
